@@ -81,12 +81,13 @@ def run(tier, seed):
     rng = random.Random(seed)
     # (i) the theorem about the specification's sampling scheme, evaluated exactly by TLC, and
     # (ii) the exact expectation of the real code for the same instance
-    cases = [("sage_joint", "sage", "joint", 2, 2, 3), ("sage_product", "sage", "product", 2, 1, 3),
+    # (product vs joint can only differ where two features are imputed together: d >= 3)
+    cases = [("sage_joint", "sage", "joint", 2, 2, 3), ("sage_product3", "sage", "product", 3, 1, 2),
              ("pfi_joint", "pfi", "joint", 3, 2, 3), ("pfi_product", "pfi", "product", 2, 2, 2),
              ("batch_m3", "batch", "joint", 2, 1, 3), ("batch_m2n2", "batch", "joint", 2, 2, 2),
-             ("batch_prod", "batch", "product", 2, 1, 3)]
+             ("batch_prod", "batch", "product", 3, 1, 2)]
     if not quick:
-        cases += [("sage_joint3", "sage", "joint", 3, 1, 3), ("sage_product3", "sage", "product", 3, 1, 2)]
+        cases += [("sage_joint3", "sage", "joint", 3, 1, 3), ("sage_product", "sage", "product", 2, 1, 3)]
     for (cfg, mode, strat, d, n, m) in cases:
         r = tlc.require_ok(tlc.run("Expectation", "Expectation_" + cfg, workers=1, tag="c04exp", timeout=900), cfg)
         if r.status != "ok":
